@@ -100,7 +100,8 @@ Step ==
          /\ drift' = "none"
          /\ UNCHANGED <<cnt, fil, clo>>
     [] e = "d_end" ->      \* a behaviour replayed on a refreshDebouncer: did every stop() return
-         /\ bad' = IF Cur.q = "hang" THEN "StopReturns" ELSE "none"
+         /\ bad' = IF Cur.q = "hang" THEN "StopReturns"
+                   ELSE IF Cur.q = "listener-stuck" THEN "RequesterAnswered" ELSE "none"
          /\ drift' = "none"
          /\ UNCHANGED <<cnt, fil, clo>>
     [] e = "h_ctx_cancelled_before_pool_close" ->   \* mechanism of Close's fixed order, not a property clause
